@@ -66,4 +66,33 @@ theorem Connect.unmarshal_subst (p : Connect) (hp : p.protocolName = []) (n : By
   simp only [Connect.unmarshal, Connect.readHead_subst p hp n hn v t, Connect.readProps_setNV, Connect.readClientID_setNV,
     Connect.readWill_setNV, Connect.readUsername_setNV, Connect.readPassword_setNV]
 
+/-- the CONNECT body with the protocol name and version split off -/
+theorem Connect.body?_split (q : Connect) (b : Bytes) (hb : q.body? = some b) :
+    ∃ t, b = encBin q.protocolName ++ q.protocolVersion :: t
+      ∧ (q.setNV Connect.mqtt5 5).body? = some (encBin Connect.mqtt5 ++ 5 :: t) := by
+  simp only [Connect.body?, Option.map_eq_some_iff] at hb
+  obtain ⟨pl, hpl, rfl⟩ := hb
+  refine ⟨q.flags :: (encU16 q.keepAlive ++ encVb q.props.length ++ q.props ++ pl), ?_, ?_⟩
+  · simp [Connect.varHeader]
+  · have : (q.setNV Connect.mqtt5 5).payload? = some pl := hpl
+    simp only [Connect.body?, this, Option.map_some, Option.some.injEq]
+    simp [Connect.varHeader, Connect.setNV, Connect.props]
+
+/-- the twin's length bound in `Connect.InDomainL` is implied by the packet's own -/
+theorem Connect.twin_bound (q : Connect) (h : ∀ b, q.body? = some b → b.length < 268435456) :
+    ∀ b, (q.setNV Connect.mqtt5 5).body? = some b → b.length < 268435456 + 4 := by
+  intro b hb
+  cases hq : q.body? with
+  | none =>
+    have : (q.setNV Connect.mqtt5 5).body? = none := by
+      simp only [Connect.body?, Option.map_eq_none_iff] at hq ⊢; exact hq
+    rw [this] at hb; cases hb
+  | some b0 =>
+    obtain ⟨t, rfl, h0⟩ := Connect.body?_split q b0 hq
+    rw [h0] at hb; simp only [Option.some.injEq] at hb; subst hb
+    have := h _ hq
+    have hn : Connect.mqtt5.length = 4 := rfl
+    simp only [List.length_append, List.length_cons, encBin, encU16, hn] at this ⊢
+    omega
+
 end Mq
